@@ -162,6 +162,15 @@ func gen(t *rapid.T) Case {
 	if c.Via == "env" {
 		// through NewReqParam the transaction id is server-generated and the algorithm travels in the message
 		c.TransID = ""
+	} else if k := rapid.IntRange(0, 11).Draw(t, "emptyDeclared"); k < 3 {
+		// directly built parameters (what a legacy message such as 'req=alice@' yields): an empty declared user and / or
+		// host is recorded like any other value - as an empty string under its member name
+		if k != 1 {
+			c.ReqHost = ""
+		}
+		if k != 0 {
+			c.ReqUser = ""
+		}
 	}
 	return c
 }
